@@ -171,6 +171,21 @@ def generate(ctx):
                 case['cols'] = picked if rng.random() < 0.8 else None  # None = whole frame
                 case['single'] = rng.random() < 0.25 and len(picked) == 1
                 case['dt'] = rng.choice(['float64', 'object', 'str', 'int64', 'bool', 'complex128', 'float32'])
+                if rng.random() < 0.35 and case['cols']:
+                    # the dtype some addressed column already has (nothing to do for that column, everything to do for the others)
+                    present = [spec.dtypes[c] for c in picked if spec.dtypes[c] in ('float64', 'object', 'int64', 'bool', 'complex128', 'float32')]
+                    if present:
+                        case['dt'] = rng.choice(present)
+                if rng.random() < 0.4:
+                    lay = case['layout'] = F.layout_max_consolidated(spec.dtypes)
+                wide = [(a, b) for a, b, two_d in lay if two_d and b - a >= 3 and b < nc and spec.dtypes[a] in ('float64', 'int64', 'bool', 'object', 'complex128', 'float32')]
+                if wide and rng.random() < 0.5:
+                    # two separate columns of one block that already has the requested dtype, and a column of a later block
+                    a, b = rng.choice(wide)
+                    case['cols'] = [a, b - 1] + sorted(rng.sample(range(b, nc), rng.randint(1, nc - b)))
+                    case['single'] = False
+                    case['dt'] = spec.dtypes[a]
+                    picked = case['cols']
                 if rng.random() < 0.35:
                     # one call with a dtype per addressed column: a mapping by label, or one entry per column with None for "leave as is"
                     case['form'] = rng.choice(['mapping', 'iterable'])
@@ -896,6 +911,15 @@ def _relabel_func(x):
     return ('R', x)
 
 
+def _falsy_target(labels):
+    held = {cs(l) for l in labels}
+    # (None only: a falsy number or string among labels of another type is NumPy's / C07's subject, not this property's)
+    for t in (['RELABELLED', None][len(labels) % 2], 'RELABELLED'):
+        if cs(t) not in held and not any(t == l for l in labels if not isinstance(l, tuple)):
+            return t
+    return 'RELABELLED2'
+
+
 def _check_relabel(case, ctx, f, before, klass):
     spec = case['spec']
     how, axis = case['how'], case['axis']
@@ -911,8 +935,11 @@ def _check_relabel(case, ctx, f, before, klass):
         elif how == 'dict':
             if not labels:
                 return
-            kw[ax] = {labels[0]: 'RELABELLED'}
-            new = ['RELABELLED'] + list(labels[1:])
+            # the new label may be None: a mapping's value is the label, whatever it is
+            target = _falsy_target(labels)
+            kw[ax] = {labels[0]: target}
+            new = [target] + list(labels[1:])
+            klass['relabel_target'] = repr(target)
         else:
             new = [f'L{i}' for i in range(len(labels))]
             kw[ax] = new
@@ -1118,7 +1145,9 @@ def _check_series(case, ctx):
         elif how == 'dict':
             if not labels:
                 return
-            arg, new = {labels[0]: 'RELABELLED'}, ['RELABELLED'] + list(labels[1:])
+            target = _falsy_target(labels)
+            klass['relabel_target'] = repr(target)
+            arg, new = {labels[0]: target}, [target] + list(labels[1:])
         else:
             new = [f'L{i}' for i in range(n)]
             arg = new
